@@ -149,7 +149,7 @@ class World:
         self.ops += 1
         op = d["op"]
         if op == "add":
-            m = self.decode(d["node"])
+            m = M.cap_powers(self.decode(d["node"]))
             self.add_model(m)
             if M.shared_nodes(m) > 0 or any(id(x) in {id(pm) for pm in self.models[:-1]} for x in M.subterms(m)[1:]):
                 self.features.add("shared")
